@@ -373,8 +373,13 @@ func genBlasWrapStruct(g *vlib.G) {
 				}
 				vlib.Product(rad, func(idx []int) bool {
 					for _, inc := range incs {
-						for _, dl := range []int{0, 2} {
-							c := Call{R: r, P: p, TA: blas.NoTrans, TB: blas.NoTrans, UL: uplos[idx[2]], DG: diags[idx[3]], SD: sides[idx[4]], Alpha: 2, Beta: 3, RotmFlag: blas.Rescaling}
+						for idl, dl := range []int{0, 2, 0, 0} {
+							// the last two rounds repeat the minimal strides with the scalars that trigger quick returns
+							sc := [][2]complex128{{2, 3}, {2, 3}, {0, 1}, {0, 0}}[idl]
+							if idl >= 2 && !r.Has("alpha") && !r.Has("beta") {
+								continue
+							}
+							c := Call{R: r, P: p, TA: blas.NoTrans, TB: blas.NoTrans, UL: uplos[idx[2]], DG: diags[idx[3]], SD: sides[idx[4]], Alpha: sc[0], Beta: sc[1], RotmFlag: blas.Rescaling}
 							if r.Has("tA") {
 								c.TA = r.Trans(p)[idx[0]]
 							}
